@@ -224,7 +224,7 @@ func cmdSched(args []string) {
 		tw.writeExec(evs, i)
 		// executions that went wrong are slow (timeouts): a few of them are enough for a verdict
 		for _, e := range evs {
-			if e["k"] == "stuck" || e["k"] == "panic" || (e["k"] == "final" && !(e["allret"] == true && e["served"] == true)) {
+			if e["k"] == "stuck" || e["k"] == "panic" || (e["k"] == "final" && !(e["allret"] == true && e["served"] == true && e["wire"] != false && e["late"] != false)) {
 				bad++
 				break
 			}
